@@ -114,6 +114,8 @@ class UnitAnalysis:
                 us = [self.unit(a, record) for a in e.args]
                 known = [u for u in us if u is not None]
                 return known[0] if known and all(u == known[0] for u in known) else None
+            if recv is None and name == "sum" and e.args and isinstance(e.args[0], (ast.GeneratorExp, ast.ListComp)):
+                return self.unit(e.args[0].elt, record)       # a sum has the unit of its terms
             if name in self.call_seeds:
                 return self.call_seeds[name]
             return None
